@@ -272,7 +272,7 @@ def main():
                                        'correspondence harness and property oracles (tools/)'}],
         'checks': checks,
         'not_applicable': na,
-        'notes': 'See DESIGN.md section 0 (as built). known_findings.json: 36 fixed entries (one fix: commit each in /repo, suppressing nothing) and 6 known findings (C05, C06, C09, C14, C15, C19) for which the checks print KNOWN-FINDING lines and exit 0. seeded/: 40 confirmed breaking changes with the checks that catch them (seeded/RESULTS.json). No hooks in /repo.',
+        'notes': 'See DESIGN.md section 0 (as built). known_findings.json: 39 fixed entries (one fix: commit each in /repo, suppressing nothing) and 6 known findings (C05, C06, C09, C14, C15, C19) for which the checks print KNOWN-FINDING lines and exit 0. seeded/: 163 confirmed breaking changes (ten rounds, written by sub-agents from the property text alone) with the checks that catch them (seeded/RESULTS.json); translator ties (tools/gen/*.py -> coq/Gen/*.v) are regenerated from /repo on every run. No hooks in /repo.',
     }
     json.dump(m, open(os.path.join(V, 'MANIFEST.json'), 'w'), indent=1)
 if __name__ == '__main__':
